@@ -205,6 +205,22 @@ def extract(repo):
     body = fn_body(log, "write_snapshot")
     g["snapshot"] = flat(tokens(body, [point_pat({71, 72, 73}), (r"File::create\(", 140), (r"\.write_all\(", 141), (r"\.flush\(\)", 142)])) if body is not None else []
 
+    # ---- session.rs: the snapshot of a session is written from the in-memory buffer AFTER the last frame was emitted
+    #      (emit_event pushes to the buffer and appends to the log under the buffer lock): no emit_event( / emit_events(
+    #      after write_snapshot( in the function that calls it, and emit_event appends to the log
+    sess = load(repo, "crates/ripd/src/session.rs")
+    g["snapshot_after_emits"] = False
+    for m in re.finditer(r"\bfn\s+(\w+)\s*(<[^>]*>)?\s*\(", sess):
+        b = fn_body(sess[m.start():], m.group(1))
+        if b is None or "write_snapshot(" not in b:
+            continue
+        w = b.rfind("write_snapshot(")
+        g["snapshot_after_emits"] = re.search(r"\bemit_events?\(", b[w:]) is None and re.search(r"\bemit_events?\(", b[:w]) is not None
+        break
+    b = fn_body(sess, "emit_event")
+    if b is None or re.search(r"event_log\s*\.append\(", b) is None or b.find(".push(") > b.find(".append("):
+        g["snapshot_after_emits"] = False
+
     # ---- append_best_effort: full sidecar part, then the derived caches
     g["side_append"], g["derived_order"] = [], []
     body = fn_body(cache, "append_best_effort")
@@ -348,6 +364,8 @@ def main():
     L.append("(* rip_log::write_snapshot: create (truncate), ONE write of the whole JSON array, flush - so a crash leaves no file,")
     L.append("   an empty file or the complete snapshot; an empty or cut file does not parse and the readers fall back to the log *)")
     L.append(f"Definition gen_snapshot : list N := {coq_list(g['snapshot'])}.")
+    L.append("(* session.rs: write_snapshot comes after the last emit_event of the run; emit_event records then appends to the log *)")
+    L.append(f"Definition gen_snapshot_after_emits : bool := {coq_bool(g['snapshot_after_emits'])}.")
     L.append(f"Definition gen_write_blob : list N := {coq_list(g['write_blob'])}.")
     L.append(f"Definition gen_writers_use_atomic : bool := {coq_bool(g['writers_use_atomic'])}.")
     L.append("(* create_continuity_locked saves the index unconditionally (same block as the in-memory insert) *)")
@@ -387,7 +405,7 @@ def main():
     L.append("  && lN_eqb gen_rebuild (skel (rebuild 0 [fr0]))")
     L.append("  && lN_eqb gen_save_index (skel save_index)")
     L.append("  && lN_eqb gen_write_blob (skel (write_blob 0))")
-    L.append("  && lN_eqb gen_snapshot [140; 71; 141; 72; 142; 73]")
+    L.append("  && lN_eqb gen_snapshot (flat_map sinstr_code (snap_prog [])) && gen_snapshot_after_emits")
     L.append("  && gen_writers_use_atomic && gen_artifact_before_frame && gen_leaf_calls_ok && gen_create_saves_always")
     L.append("  && Nat.eqb (length gen_locked) 11")
     L.append("  && forallb (fun l => lN_eqb l locked_spec && lN_eqb (modelled l) (skel (locked_append fixed st_warm 0 0 10 None))) gen_locked")
